@@ -1,17 +1,28 @@
 LEVEL = "exploration"
-RULE = ("one case = one configured projection (ellipsoid x standard parallels x k1 x constructor form) pushed through "
-        "the configuration monitors and 10-20 points; directed sections walk the full product ellipsoid ladder "
-        "{0,+-1e-8,WGS84,+-0.01,+-0.1,0.5,-1} x a{1,6.4e6} x k1{0.5,0.994,1,3} x a ~90-entry catalogue of standard "
-        "parallels (single, pairs 1e-12..170 deg apart, symmetric, one at a pole, sin/cos incl. denormal cosines); "
-        "random sections draw ellipsoid, parallels, scale, points, (x,y) from class-labelled generators; one "
-        "evaluation = one oracle-checked point / (x,y) / configuration; distinct = distinct hash of (class, config, "
-        "inputs); trivial = exception-contract probes and oracle self-tests")
-ASSUMPTIONS = ["libquadmath sinq/cosq/expq/expm1q/logq/atanhq/atanq/asinhq/sqrtq accurate to ~1e-33",
-               "Snyder's closed forms (PP 1395 eqs 3-12, 14-*, 15-*, 21-33, 24-23, 7-*) define the projections; prolate "
-               "ellipsoids by analytic continuation (atan forms)",
-               "origin convention y=0 at the latitude of minimum scale is taken from the class documentation and checked",
-               "a scale k1 on the standard parallels of the equal-area conic means (n,C)->k1^2(n,C) (only equal-area choice)",
-               "ground metric: map error / local scale (Albers: E-W / k, N-S * k after removing 4 eps(|x|+|y|) representation floor)"]
+RULE = ("one case = one configured projection (ellipsoid x standard parallels x k1 x constructor form) pushed through the "
+        "configuration monitors, 10-20 points and 3-6 arbitrary (x,y); directed sections walk the full product ellipsoid ladder "
+        "{0,+-1e-8,WGS84,+-0.01,+-0.1,0.5,-1} x a{1,6.4e6} x k1{0.5,0.994,1,3} x an 86-entry catalogue of standard parallels "
+        "(single 0/+-1e-10/+-30/+-89.999999/+-90, pairs 1e-12..170 deg apart about 6 centres, symmetric about the equator, one "
+        "at a pole, sin/cos forms incl. cosines down to 5e-324 and unnormalised pairs); random sections draw ellipsoid "
+        "(ladder, log-uniform |f| 1e-12..0.3, uniform -2..0.75, a log-uniform 0.1..1e8), parallels, k1 (0.1..10), points "
+        "(poles, 1e-13 deg from poles, origin, standard parallels, lon-lon0 incl. 0/+-90/+-180/+-(180-1e-12), lon0 incl. +-180) "
+        "and (x,y) (near-image, boxes to 30 a k1, log-radius about origin and about the apex, at/beyond the apex); further "
+        "sections: constructor equivalence, SetScale, exception contract, static singletons, extreme ellipsoids, oracle "
+        "self-test. one evaluation = one oracle-checked point / (x,y) / configuration / 64-point lattice; distinct = distinct "
+        "hash of (class, configuration, inputs); trivial = exception-contract probes and oracle self-tests")
+ASSUMPTIONS = ["libquadmath sinq/cosq/expq/expm1q/log1pq/logq/atanhq/atanq/asinhq/sqrtq accurate to ~1e-33",
+               "Snyder's closed forms (PP 1395 eqs 3-12, 14-*, 15-*, 21-33, 24-23, 7-*) define the projections; prolate ellipsoids by "
+               "analytic continuation (atan forms); differences of q, of sin(phi) and 1-|n| near a pole are formed by exact algebraic "
+               "rearrangement (addition theorems) because even binary128 cannot hold them for cosines < 1e-17",
+               "origin convention (y=0 at the latitude of minimum scale, scale CentralScale() there) is taken from the class documentation "
+               "and checked against OriginLatitude()/CentralScale(); for one polar and one non-polar Albers parallel this is the pole",
+               "a scale k1 on the standard parallels of the equal-area conic means (n,C)->k1^2(n,C) (the only equal-area choice)",
+               "ground metric: map error / local scale (Albers: E-W / k, N-S * k after removing a representation floor of (16+4 kappa) eps "
+               "(|x|+|y|+|rho|), kappa = m0^2/w^2 <= 64 the cancellation factor of the library's own formula)",
+               "tolerances: 10 nm x 4 x a/a_WGS84 x eccfac on the ground, eccfac = max(1,(1-f)^2,(1-f)^-2); k: 10nm/a x 4 x eccfac x "
+               "(1+|ln k/k0|); gamma likewise x (1+|gamma|); lat0/k0: documented 4.5e-14 deg / 7e-15 x 4 x eccfac inside the documented "
+               "domain of the constructor; finite-difference Jacobian 2e-9 + round-off of the differenced outputs",
+               "input regimes with an identified defect mechanism (see known findings) are reported under one key regime:C11/<proj>/<regime> each"]
 RUNS = [
     dict(harness="harness/C11.cpp", flavour="o2", scale={"quick": 1.0, "thorough": 1.0}),
     dict(harness="harness/C11.cpp", flavour="asan", scale={"quick": 0.1, "thorough": 0.05},
@@ -25,9 +36,10 @@ MANIFEST = dict(
          "cylindrical and azimuthal limits and the static singletons) is compared point by point with an independent "
          "binary128 evaluation of the textbook formulas, in ground distance; its OriginLatitude/CentralScale with the "
          "reference latitude of minimum scale; Reverse with the identity and with the reference re-projection of arbitrary "
-         "(x,y); gamma and k with the Jacobian of the library's own Forward. Held = no monitor fired on the executions observed.",
-    note="Trusts libquadmath and the harness's reading of Snyder; tolerance 10 nm x 4 (scaled by a/a_WGS84) on the ground, "
-         "10nm/a x 4 for k and gamma, documented 4.5e-14 deg / 7e-15 x 4 for lat0/k0 inside the documented domain; points "
-         "with local scale > 1e8 are judged by round trip only; Albers round trip near a non-apex pole is judged with the "
-         "conditioning of the equal-area map.",
+         "(x,y); gamma and k with the reference and with the Jacobian of the library's own Forward; equivalent constructors with "
+         "each other; SetScale with the requested scale. Held = no monitor fired on the executions observed.",
+    note="Trusts libquadmath and the harness's reading of Snyder; points with local scale > 1e8 are judged by round trip only; "
+         "(x,y) whose longitude difference exceeds 180 deg are judged for range/longitude/k/gamma only; the ConicProj tool is not "
+         "exercised here (C10); tolerances scale with eccentricity as stated in the assumptions, so 'about 10 nm' is asserted for "
+         "Earth-like ellipsoids and 4x that at f=0.5 or f=-1.",
     design_ref="DESIGN.md#c11")
